@@ -627,6 +627,13 @@ def install_methods(it):
     def hlist_append(it, args, kw):
         args[0].parts.append(args[1])
 
+    @M('seq', 'append')
+    def seq_append(it, args, kw):
+        # a Python list of unknown length held as a sequence term: append updates the list object
+        from .pack import to_term
+        sv = args[0]
+        sv.term = z3.simplify(z3.Concat(sv.term, z3.Unit(to_term(it, args[1], sv.elem))))
+
     @M('hlist', 'insert')
     def hlist_insert(it, args, kw):
         from .values import Segment
@@ -763,6 +770,11 @@ def install_methods(it):
     @M('stream', 'writelines')
     def st_writelines(it, args, kw):
         st = args[0]
+        if isinstance(args[1], SeqVal) and it.seq_len_unknown(args[1]):
+            # writing the lines one after the other = writing their concatenation
+            from .folds import fold_join_seq
+            bytesops.stream_write(it, st, fold_join_seq(it, args[1]))
+            return
         it.iterate(args[1], lambda x: bytesops.stream_write(it, st, x))
 
     @M('stream', 'close')
